@@ -30,3 +30,6 @@ fields("OptimizationAbstract", _config="opt[BaseOptimizationConfig]", _task="opt
 fields("Population", agents="list[Agent]")
 fields("OptimizationResult", evolution="list[Population]", rates="list[float]", best_solution="opt[Agent]",
        task_type="TaskType")
+fields("ContinuousVariable", lower_bound="float", upper_bound="float")
+fields("DiscreteVariable", choices="list[any]")
+fields("BinaryVariable", n_vars="int")
